@@ -1355,6 +1355,10 @@ def convert_interval(interval):
     if isinstance(interval, str):
         import pandas as pd
         interval = pd.Timedelta(interval).total_seconds()
+    elif hasattr(interval, 'item'):
+        # a numpy scalar: adding e.g. a float32 to the reading of the clock
+        # would be done in float32, which cannot hold seconds since 1970
+        interval = interval.item()
     return interval
 
 
